@@ -1,6 +1,9 @@
 import Rtsp.Model.Session
 import Rtsp.Model.SessionTimer
 import Rtsp.Proofs.Sess.Timer
+import Rtsp.Proofs.Sess.Step
+import Rtsp.Proofs.Sess.Resp
+import Rtsp.Proofs.Sess.Ends
 /-
 C02 — server sessions follow the RTSP state machine; one response per request.
 
@@ -32,6 +35,162 @@ theorem facts_shape :
     Sess.statusUnsupportedTransport = 461 ∧ Sess.statusNotImplemented = 501 ∧
     [Sess.stateInitial, Sess.statePrePlay, Sess.statePlay, Sess.statePreRecord, Sess.stateRecord] = [0, 1, 2, 3, 4] := by
   decide
+
+/-! ## one response per request -/
+
+/-- **one_response_per_request**, all histories (any number of connections, requests, client-side
+closes, expiries): the output of `run` has one slot per event; the slot of a request that reached an
+open connection holds exactly one response and that response carries the request's CSeq; every
+other slot is empty.  Responses therefore come in request order (`responses_echo_cseq`). -/
+theorem one_response_per_request (cfg : Config) (srv : Server) (evs : List Event) :
+    (run cfg srv evs).2.length = evs.length ∧ AnswersAll cfg srv evs (run cfg srv evs).2 :=
+  ⟨run_length cfg evs srv, run_answers cfg evs srv⟩
+
+/-- the responses read off the wire, in order, carry the CSeqs of the delivered requests, in order -/
+theorem responses_echo_cseq (cfg : Config) (srv : Server) (evs : List Event) :
+    ((run cfg srv evs).2.filterMap id).map (·.cseq) = (delivered cfg srv evs).map (·.cseq) :=
+  Sess.responses_echo_cseq cfg evs srv
+
+/-- a response that ends in an error closes the connection: the next request on that connection is
+not delivered (the client sees the close instead of a response) -/
+theorem no_response_after_error (cfg : Config) (srv : Server) (c : Nat) (cn : Conn) (r r' : Request)
+    (hc : findConn srv c = some cn) (hid : cn.id = c) (h : (handleRequest cfg srv cn r).2.err = .fail) :
+    (stepEv cfg (stepEv cfg srv (.req c r)).1 (.req c r')).2 = none :=
+  Sess.no_response_after_error cfg srv c cn r r' hc hid h
+
+/-- non-vacuity: SETUP, PLAY, a PLAY without Session header (501, no error), TEARDOWN with a wrong
+id (400 + close), then a request on the closed connection: four responses in order, then none. -/
+example :
+    let evs : List Event := [.open 0 0,
+      .req 0 { method := .setup, cseq := some 1, trs := some [{ proto := .udp }] },
+      .req 0 { method := .play, cseq := some 2, sid := .id 0 },
+      .req 0 { method := .play, cseq := some 3 },
+      .req 0 { method := .teardown, cseq := some 4, sid := .wrong },
+      .req 0 { method := .options, cseq := some 5 }]
+    ((run {} {} evs).2.map fun o => o.map fun r => (r.status, r.cseq)) =
+      [none, some (200, some 1), some (200, some 2), some (501, some 3), some (400, some 4), none] := by
+  decide
+
+/-! ## the session state follows the RFC 2326 table -/
+
+/-- **refines_rfc**: a request answered 200 moves `ServerSession.state` exactly as the table says
+(TEARDOWN leaves the record alone: the session ends, see `teardown_ends`); for every session, every
+connection, every request, every configuration and every handler answer. -/
+theorem refines_rfc (cfg : Config) (ss : Session) (c : Nat) (r : Request)
+    (h : (sessInner cfg ss c r).2.status = 200) (hm : r.method ≠ .teardown) :
+    (sessInner cfg ss c r).1.state = next ss.state r.method := by
+  simpa [hm] using sessInner_state cfg ss c r h
+
+/-- a request that is not answered 200 leaves the whole session record unchanged -/
+theorem error_unchanged (cfg : Config) (ss : Session) (c : Nat) (r : Request)
+    (h : (sessInner cfg ss c r).2.status ≠ 200) : (sessInner cfg ss c r).1 = ss :=
+  sessInner_unchanged cfg ss c r h
+
+/-- both together, in the vocabulary of the specification -/
+theorem state_is_rfc_step (cfg : Config) (ss : Session) (c : Nat) (r : Request) (hm : r.method ≠ .teardown) :
+    (sessInner cfg ss c r).1.state =
+      Rfc2326.step ss.state r.method ((sessInner cfg ss c r).2.status == 200) := by
+  unfold Rfc2326.step
+  by_cases h : (sessInner cfg ss c r).2.status = 200
+  · simp [h, refines_rfc cfg ss c r h hm]
+  · simp [h, error_unchanged cfg ss c r h]
+
+/-- **illegal_is_error_and_unchanged**: a request the table does not allow in the current state is
+answered 400 with an error (which also closes the connection) and nothing about the session changes. -/
+theorem illegal_is_error_and_unchanged (cfg : Config) (ss : Session) (c : Nat) (r : Request)
+    (h : allowed ss.state r.method = false) :
+    (sessInner cfg ss c r).2.status = 400 ∧ (sessInner cfg ss c r).2.err = .fail ∧
+      (sessInner cfg ss c r).1 = ss := by
+  have hi : implAllowed ss.state r.method = false := by
+    cases hx : implAllowed ss.state r.method
+    · rfl
+    · rw [implAllowed_sub_rfc _ _ hx] at h; exact absurd h (by decide)
+  rw [sessInner_guard cfg ss c r hi]
+  exact ⟨rfl, rfl, rfl⟩
+
+example : allowed .record .play = false ∧ allowed .initial .pause = false ∧ allowed .prePlay .announce = false := by
+  decide
+
+/-- Against the literal A.2 table (which does not list PAUSE for Ready) the only deviation is PAUSE
+in a ready state: it may be answered 200 — and the state does not move. -/
+theorem illegal_strict (cfg : Config) (ss : Session) (c : Nat) (r : Request)
+    (h : allowedStrict ss.state r.method = false) :
+    ((sessInner cfg ss c r).2.status = 400 ∧ (sessInner cfg ss c r).1 = ss) ∨
+    (r.method = .pause ∧ (ss.state = .prePlay ∨ ss.state = .preRecord) ∧
+      (sessInner cfg ss c r).1.state = ss.state) := by
+  by_cases hp : pauseInReady ss.state r.method = true
+  · right
+    have hm : r.method = .pause := by
+      cases hs : ss.state <;> cases hmm : r.method <;> simp_all [pauseInReady]
+    have hst : ss.state = .prePlay ∨ ss.state = .preRecord := by
+      cases hs : ss.state <;> cases hmm : r.method <;> simp_all [pauseInReady]
+    refine ⟨hm, hst, ?_⟩
+    have := state_is_rfc_step cfg ss c r (by simp [hm])
+    rw [this, hm]
+    rcases hst with h1 | h1 <;> simp [Rfc2326.step, next, h1]
+  · left
+    have : allowed ss.state r.method = false := by simp [allowed, h, hp]
+    obtain ⟨h1, _, h3⟩ := illegal_is_error_and_unchanged cfg ss c r this
+    exact ⟨h1, h3⟩
+
+/-- the deviation is real: PAUSE in pre-play is answered 200 -/
+theorem pause_in_ready_accepted :
+    (sessInner {} { id := 0, authorIp := 0, conns := [0], state := .prePlay, transport := some .udp, medias := [0] }
+      0 { method := .pause }).2.status = 200 := by decide
+
+/-- The code is stricter than the table in exactly three places (400 where A.2 has an entry):
+SETUP while playing / recording, RECORD while recording. -/
+theorem stricter_than_rfc_exactly (s : SState) (m : Method) :
+    (allowed s m = true ∧ implAllowed s m = false) ↔
+      (s, m) = (.play, .setup) ∨ (s, m) = (.record, .setup) ∨ (s, m) = (.record, .record) :=
+  stricter_exactly s m
+
+/-- the state guard of the code: outside `implAllowed` the answer is 400 + error, session untouched -/
+theorem state_guard (cfg : Config) (ss : Session) (c : Nat) (r : Request)
+    (h : implAllowed ss.state r.method = false) : sessInner cfg ss c r = bad ss :=
+  sessInner_guard cfg ss c r h
+
+/-- non-vacuity of `refines_rfc`: a request that passes the state guard and is well-formed
+(`WellFormed`: free interleaved connection, matching path, supported and consistent transport,
+existing and not yet set up media, all announced medias set up, handler answers 200) is answered 200. -/
+theorem legal_wellformed_ok (cfg : Config) (ss : Session) (c : Nat) (r : Request)
+    (hl : implAllowed ss.state r.method = true) (hw : WellFormed cfg ss c r) :
+    (sessInner cfg ss c r).2.status = 200 := wellformed_ok cfg ss c r hl hw
+
+example : WellFormed {} { id := 0, authorIp := 0, conns := [0], state := .prePlay, transport := some .udp, medias := [0] }
+    0 { method := .play, sid := .id 0 } := by
+  simp [WellFormed]
+
+/-- a successful TEARDOWN ends the session; TEARDOWN succeeds unless another connection owns the
+session's interleaved stream -/
+theorem teardown_ends (cfg : Config) (ss : Session) (c : Nat) (r : Request) (hm : r.method = .teardown)
+    (hc : ss.tcpConn = none ∨ ss.tcpConn = some c) :
+    (sessHandle cfg ss c r).ended = true ∧ (sessHandle cfg ss c r).res.status = 200 ∧
+      (sessHandle cfg ss c r).res.sessHdr = none := by
+  have hc' : (ss.tcpConn.isSome && ss.tcpConn != some c) = false := by
+    rcases hc with h | h <;> simp [h]
+  unfold sessHandle sessInner
+  simp only [hm, hc', doTeardown]
+  simp only [Bool.false_eq_true, if_false]
+  split <;> simp_all
+
+/-! ## a session ends exactly once -/
+
+/-- **session_ends_once** (bookkeeping half): in every history from the empty server, every session
+identifier handed out so far has exactly one `OnSessionOpen`; it has exactly one `OnSessionClose`
+if the session is gone and none while it is alive; no other identifier appears in the log. -/
+theorem session_ends_once (cfg : Config) (evs : List Event) (id : Nat) :
+    let srv := (run cfg {} evs).1
+    openCount srv id = (if id < srv.nextSid then 1 else 0) ∧
+    closeCount srv id = (if id < srv.nextSid ∧ id ∉ sessIds srv then 1 else 0) ∧
+    closeCount srv id ≤ 1 ∧ closeCount srv id ≤ openCount srv id := by
+  have h := LogInv.run logInv_init cfg evs
+  intro srv
+  have ho := h.opens id
+  have hc := h.closes id
+  refine ⟨ho, hc, ?_, ?_⟩
+  · rw [hc]; split <;> omega
+  · rw [hc, ho]; split <;> split <;> simp_all
 
 /-! ## timing clauses -/
 
